@@ -317,4 +317,225 @@ theorem loaded_resave_fields {o : Obj} {os : OStream} {r : SaveRes} (hs : save o
 theorem loaded_resave_names {st st2 a b2 : SecBuf} (hv : st2.view = st.view) (hn : b2.nameOff = a.nameOff) :
     Spec.strAt st2.view b2.nameOff.toNat = Spec.strAt st.view a.nameOff.toNat := by rw [hv, hn]
 
+/-! ### 4. edits outside the segments -/
+
+/-- the getters the layout reads from the prepared header do not depend on the number of sections -/
+theorem saveHdr0_getters_congr {o o' : Obj} (hc : o'.cls = o.cls) (he : o'.enc = o.enc)
+    (hg : o'.segs.length = o.segs.length) (hd : Bytes) (hl : ehdrSize o.cls ≤ hd.length) :
+    Hdr.e_phoff o.cls o.enc (saveHdr0 o' hd) = Hdr.e_phoff o.cls o.enc (saveHdr0 o hd) ∧
+    Hdr.e_phentsize o.cls o.enc (saveHdr0 o' hd) = Hdr.e_phentsize o.cls o.enc (saveHdr0 o hd) ∧
+    Hdr.e_phnum o.cls o.enc (saveHdr0 o' hd) = Hdr.e_phnum o.cls o.enc (saveHdr0 o hd) ∧
+    Hdr.e_ehsize o.cls o.enc (saveHdr0 o' hd) = Hdr.e_ehsize o.cls o.enc (saveHdr0 o hd) := by
+  unfold saveHdr0
+  simp only [hc, he, hg]
+  generalize o.cls = c at *
+  generalize o.enc = e at *
+  generalize o.segs.length % 65536 = m
+  generalize (if m > 0 then (Hdr.e_ehsize c e (Hdr.set_phnum c e hd m)).toNat else 0) = p
+  have la : ehdrSize c ≤ (HField.phnum.set c e hd m).length := by rw [hdr_set_length _ _ _ _ _ hl]; exact hl
+  have lb : ehdrSize c ≤ (HField.phoff.set c e (HField.phnum.set c e hd m) p).length := by
+    rw [hdr_set_length _ _ _ _ _ la]; exact la
+  have key : ∀ n : Nat,
+      let k := HField.phoff.set c e (HField.phnum.set c e hd m) p
+      let h0 := HField.shoff.set c e (HField.shnum.set c e k n) 0
+      Hdr.e_phoff c e h0 = Hdr.e_phoff c e k ∧ Hdr.e_phentsize c e h0 = Hdr.e_phentsize c e k ∧
+      Hdr.e_phnum c e h0 = Hdr.e_phnum c e k ∧ Hdr.e_ehsize c e h0 = Hdr.e_ehsize c e k := by
+    intro n
+    have lc : ehdrSize c ≤ (HField.shnum.set c e (HField.phoff.set c e (HField.phnum.set c e hd m) p) n).length := by
+      rw [hdr_set_length _ _ _ _ _ lb]; exact lb
+    obtain ⟨_, _, _, _, a4, _, _, a7, a8, a9, _, _, _⟩ := hdr_set_frame .shnum c e _ n lb
+    obtain ⟨_, _, _, _, b4, _, _, b7, b8, b9, _, _, _⟩ := hdr_set_frame .shoff c e _ 0 lc
+    exact ⟨(b4 (by decide)).trans (a4 (by decide)), (b8 (by decide)).trans (a8 (by decide)),
+      (b9 (by decide)).trans (a9 (by decide)), (b7 (by decide)).trans (a7 (by decide))⟩
+  have k1 := key (o'.secs.length % 65536)
+  have k2 := key (o.secs.length % 65536)
+  exact ⟨k1.1.trans k2.1.symm, k1.2.1.trans k2.2.1.symm, k1.2.2.1.trans k2.2.2.1.symm, k1.2.2.2.trans k2.2.2.2.symm⟩
+
+theorem saveStep_congr {c : Cls} {e : Enc} {h0 h0' : Bytes}
+    (h1 : Hdr.e_phoff c e h0' = Hdr.e_phoff c e h0) (h2 : Hdr.e_phentsize c e h0' = Hdr.e_phentsize c e h0)
+    (h3 : Hdr.e_phnum c e h0' = Hdr.e_phnum c e h0) : saveStep c e h0' = saveStep c e h0 := by
+  funext acc g
+  unfold saveStep
+  rw [h1, h2, h3]
+
+/-- the indices that are members of some segment -/
+def MemberIdx (segs : List Seg) (i : Nat) : Prop := ∃ g ∈ segs, ∃ k ∈ g.secs, k.toNat = i
+
+theorem withoutSegment_member {segs : List Seg} {i : Nat} (h : MemberIdx segs i) : withoutSegment segs i = false := by
+  obtain ⟨g, hg, k, hk, e⟩ := h
+  unfold withoutSegment
+  simp only [Bool.not_eq_false', List.any_eq_true]
+  exact ⟨g, hg, k, hk, by simpa using e⟩
+
+/-- what the sections of a saved object are, for a member of a segment: the layout's version -/
+theorem saved_member_secs {o1 : Obj} {segs1 done : List Seg} {lay : Layout} {i : Nat} {x : SecBuf}
+    (hm : MemberIdx (tailSegs segs1 done) i) (hx : lay.secs[i]? = some x) (hs : x.Settled) :
+    (tailSecs o1 segs1 lay done)[i]? = some x := by
+  unfold tailSecs tailLoose
+  rw [layoutLoose_eq]
+  simp only [List.reverse_nil, List.nil_append]
+  have h1 : (looseSpec o1.cls (putBack segs1 done) lay.secs 0 lay.pos).1[i]? = some x := by
+    rw [looseSpec_getElem?_member _ _ _ 0 _ i (by rw [Nat.zero_add]; exact withoutSegment_member hm)]
+    exact hx
+  have := residentForSave_getElem? o1.cls o1.trans _ { st := o1.stream } [] i x h1 hs
+  simpa using this
+
+/-- **edit_frame** : two objects that differ only *outside* the segments — same class, byte order,
+    header buffer, segments, and the same (resident) section at every index that is a member of some
+    segment; the other sections, their number, their data may differ: a section added with
+    `sections.add` (which also extends the name table), data appended to a section that belongs to no
+    segment — are laid out identically as far as the segments go: after `save`, the segments are
+    equal (same offsets, file and memory sizes) and every member section is equal (same offset, same
+    address).  The segment loop reads and writes member sections only (`saveFold_agree`), and members
+    are laid out before loose sections. -/
+theorem edit_frame {o o' : Obj} {os os' : OStream} {r r' : SaveRes} {hd : Bytes}
+    (hs : save o os = .ok r) (hok : r.ok = true) (hs' : save o' os' = .ok r') (hok' : r'.ok = true)
+    (hc : o'.cls = o.cls) (he : o'.enc = o.enc) (hh : o.hdr = some hd) (hh' : o'.hdr = some hd)
+    (hl : ehdrSize o.cls ≤ hd.length) (hseg : o'.segs = o.segs) (hidx : SegIdxOk o.segs)
+    (hsec : ∀ i, MemberIdx o.segs i → o'.secs[i]? = o.secs[i]?)
+    (hset : ∀ i a, MemberIdx o.segs i → o.secs[i]? = some a → a.Settled)
+    (hn : ∀ i, MemberIdx o.segs i → i < o.secs.length % 65536 ∧ i < o'.secs.length % 65536) :
+    r'.obj.segs = r.obj.segs ∧ ∀ i, MemberIdx o.segs i → r'.obj.secs[i]? = r.obj.secs[i]? := by
+  -- segments keep their member lists through a save
+  obtain ⟨_, fsg, _, _, _⟩ := save_frames hs hok hidx
+  obtain ⟨hd1, segs1, ordered, lay, done, e1, _, h1, h2, h3, rfl⟩ := save_ok_unfold hs hok
+  obtain ⟨hd2, segs1', ordered', lay', done', e2, _, h1', h2', h3', rfl⟩ := save_ok_unfold hs' hok'
+  rw [hh] at e1; cases e1
+  rw [hh'] at e2; cases e2
+  obtain ⟨_, eobj, _, _⟩ := saveTail_ok hok
+  obtain ⟨_, eobj', _, _⟩ := saveTail_ok hok'
+  rw [eobj] at fsg
+  simp only at fsg
+  -- A. the initial residency pass leaves resident members alone
+  have hlen : ∀ i, MemberIdx o.segs i → i < o.secs.length ∧ i < o'.secs.length := fun i hi =>
+    ⟨Nat.lt_of_lt_of_le (hn i hi).1 (Nat.mod_le _ _), Nat.lt_of_lt_of_le (hn i hi).2 (Nat.mod_le _ _)⟩
+  have hpre : ∀ i, MemberIdx o.segs i → (preRes o).secs[i]? = o.secs[i]? := by
+    intro i hi
+    have hlt := (hlen i hi).1
+    have ha : o.secs[i]? = some o.secs[i] := List.getElem?_eq_getElem hlt
+    have := allResident_getElem? o.cls o.trans o.secs { st := o.stream } [] i _ ha (hset i _ hi ha)
+    rw [ha]
+    exact (by simpa using this : (allResident o.cls o.trans o.secs { st := o.stream } []).1[i]? = some o.secs[i])
+  have hpre' : ∀ i, MemberIdx o.segs i → (preRes o').secs[i]? = o.secs[i]? := by
+    intro i hi
+    have hlt := (hlen i hi).2
+    have ha : o'.secs[i]? = some o'.secs[i] := List.getElem?_eq_getElem hlt
+    have hs0 : (o'.secs[i]).Settled := hset i _ hi (by rw [← hsec i hi]; exact ha)
+    have := allResident_getElem? o'.cls o'.trans o'.secs { st := o'.stream } [] i _ ha hs0
+    rw [← hsec i hi, ha]
+    exact (by simpa using this : (allResident o'.cls o'.trans o'.secs { st := o'.stream } []).1[i]? = some o'.secs[i])
+  -- B. segment alignments
+  have esegs : (preRes o').segs = (preRes o).segs := hseg
+  have hmem : ∀ g ∈ o.segs, ∀ idx ∈ g.secs, MemberIdx o.segs idx.toNat := fun g hg idx hi => ⟨g, hg, idx, hi, rfl⟩
+  have eq1 : segs1 = segs1' := by
+    rw [esegs] at h1'
+    have : List.mapM (calcSegAlign (preRes o').secs) (preRes o).segs =
+        List.mapM (calcSegAlign (preRes o).secs) (preRes o).segs :=
+      mapM_congr' (fun g hg => calcSegAlign_congr (fun idx hi => by
+        rw [hpre' _ (hmem g hg idx hi), hpre _ (hmem g hg idx hi)]))
+    rw [this, h1] at h1'
+    cases h1'; rfl
+  subst eq1
+  have eq2 : ordered = ordered' := by rw [h2] at h2'; cases h2'; rfl
+  subst eq2
+  -- C. the header getters the layout reads
+  obtain ⟨g1, g2, g3, g4⟩ := saveHdr0_getters_congr hc he (by rw [hseg]) hd hl
+  rw [← saveHdr0_preRes o hd, ← saveHdr0_preRes o' hd] at g1 g2 g3 g4
+  have estep : saveStep o'.cls o'.enc (saveHdr0 (preRes o') hd) = saveStep o.cls o.enc (saveHdr0 (preRes o) hd) := by
+    rw [hc, he]; exact saveStep_congr g1 g2 g3
+  rw [estep] at h3'
+  -- D. the two initial layouts agree on members
+  have ag0 : AgreeOn (MemberIdx o.segs) (saveLay0 (preRes o) (saveHdr0 (preRes o) hd))
+      (saveLay0 (preRes o') (saveHdr0 (preRes o') hd)) := by
+    refine ⟨?_, fun i hi => ?_, fun i hi => ?_⟩
+    · show savePos0 (preRes o) _ = savePos0 (preRes o') _
+      unfold savePos0
+      show save_cursor0 (Hdr.e_ehsize o.cls o.enc _) (Hdr.e_phentsize o.cls o.enc _) (Hdr.e_phnum o.cls o.enc _) =
+        save_cursor0 (Hdr.e_ehsize o'.cls o'.enc _) (Hdr.e_phentsize o'.cls o'.enc _) (Hdr.e_phnum o'.cls o'.enc _)
+      rw [hc, he, g2, g3, g4]
+    · show (preRes o).secs[i]? = (preRes o').secs[i]?
+      rw [hpre i hi, hpre' i hi]
+    · show (List.replicate ((preRes o).secs.length % 65536) false)[i]? =
+        (List.replicate ((preRes o').secs.length % 65536) false)[i]?
+      rw [(preRes_frame o).1, (preRes_frame o').1, List.getElem?_replicate, List.getElem?_replicate,
+        if_pos (hn i hi).1, if_pos (hn i hi).2]
+  -- members of ordered segments are members
+  have hsub := orderedSegments_sub h2
+  have fa := mapM_ok_frame h1
+  have hordmem : ∀ g ∈ ordered, ∀ idx ∈ g.secs, MemberIdx o.segs idx.toNat := by
+    intro g hg idx hi
+    obtain ⟨k, hk⟩ := List.getElem?_of_mem (hsub g hg)
+    have hk' : k < (preRes o).segs.length := by
+      rw [← fa.1]
+      rcases Nat.lt_or_ge k segs1.length with h | h
+      · exact h
+      · rw [List.getElem?_eq_none h] at hk; cases hk
+    have := fa.2 k _ g (List.getElem?_eq_getElem hk') hk
+    have es := (calcSegAlign_frame (c := o.cls) this).1.secs
+    exact ⟨_, List.getElem_mem hk', idx, by rw [← es]; exact hi, rfl⟩
+  have hfold := saveFold_agree (c := o.cls) (e := o.enc) (h0 := saveHdr0 (preRes o) hd) ordered hordmem ag0 []
+  rw [h3, h3'] at hfold
+  obtain ⟨agl, edone⟩ := hfold
+  simp only at agl edone
+  subst edone
+  -- E. segments
+  rw [eobj, eobj']
+  refine ⟨rfl, fun i hi => ?_⟩
+  -- F. member sections
+  simp only
+  obtain ⟨ds, ed, run⟩ := saveFold_run ordered h3
+  simp only [List.nil_append] at ed
+  subst ed
+  obtain ⟨fsec, _, _⟩ := run.frame
+  have hlt := (hlen i hi).1
+  have ha : o.secs[i]? = some o.secs[i] := List.getElem?_eq_getElem hlt
+  have hlay0 : (saveLay0 (preRes o) (saveHdr0 (preRes o) hd)).secs[i]? = some o.secs[i] := by
+    show (preRes o).secs[i]? = _
+    rw [hpre i hi]; exact ha
+  have hli : i < lay.secs.length := by
+    rw [fsec.1]
+    rcases Nat.lt_or_ge i (saveLay0 (preRes o) (saveHdr0 (preRes o) hd)).secs.length with h | h
+    · exact h
+    · rw [List.getElem?_eq_none h] at hlay0; cases hlay0
+  have hx : lay.secs[i]? = some lay.secs[i] := List.getElem?_eq_getElem hli
+  have hxs : (lay.secs[i]).Settled := Placed.settled (fsec.2 i _ _ hlay0 hx) (hset i _ hi ha)
+  -- membership in the saved segments
+  have hm' : MemberIdx (tailSegs segs1 done) i := by
+    obtain ⟨g, hg, k, hk, e⟩ := hi
+    obtain ⟨j, hj⟩ := List.getElem?_of_mem hg
+    have hj' : j < (tailSegs segs1 done).length := by
+      rw [fsg.1]
+      rcases Nat.lt_or_ge j o.segs.length with h | h
+      · exact h
+      · rw [List.getElem?_eq_none h] at hj; cases hj
+    have := fsg.2 j g _ hj (List.getElem?_eq_getElem hj')
+    exact ⟨_, List.getElem_mem hj', k, by rw [this.frame.secs]; exact hk, e⟩
+  rw [saved_member_secs hm' hx hxs]
+  have hx' : lay'.secs[i]? = some lay.secs[i] := by rw [← agl.secs i hi]; exact hx
+  exact saved_member_secs hm' hx' hxs
+
+/-- **edit_frame, instantiated for `sections.add`** : adding a section to an object whose name table
+    is not a segment member changes neither the segments nor any member section of the saved result. -/
+theorem edit_frame_add_section {o o' : Obj} {name : Bytes} {os os' : OStream} {r r' : SaveRes} {hd : Bytes} {st : SecBuf}
+    (hh : o.hdr = some hd) (hl : ehdrSize o.cls ≤ hd.length)
+    (hst : o.secs[(Hdr.e_shstrndx o.cls o.enc hd).toNat]? = some st) (hI : st.Inv)
+    (hb : (Spec.addStr st.content name).1.length < 4294967296)
+    (hadd : sectionsAdd o name = .ok o')
+    (hnm : ¬ MemberIdx o.segs (Hdr.e_shstrndx o.cls o.enc hd).toNat)
+    (hcount : o.secs.length + 1 < 65536) (hmem : ∀ i, MemberIdx o.segs i → i < o.secs.length)
+    (hset : ∀ i a, MemberIdx o.segs i → o.secs[i]? = some a → a.Settled) (hidx : SegIdxOk o.segs)
+    (hs : save o os = .ok r) (hok : r.ok = true) (hs' : save o' os' = .ok r') (hok' : r'.ok = true) :
+    r'.obj.segs = r.obj.segs ∧ ∀ i, MemberIdx o.segs i → r'.obj.secs[i]? = r.obj.secs[i]? := by
+  obtain ⟨o2, st', nb, e, eo, elen, _, _, _, _, _, _, _, _, hother⟩ := sectionsAdd_name o name hd st hh hst hI hb
+  rw [hadd] at e; cases e
+  have hc : o'.cls = o.cls := by rw [eo]
+  have he : o'.enc = o.enc := by rw [eo]
+  have hh' : o'.hdr = some hd := by rw [eo]; exact hh
+  have hseg : o'.segs = o.segs := by rw [eo]
+  refine edit_frame hs hok hs' hok' hc he hh hh' hl hseg hidx (fun i hi => ?_) hset (fun i hi => ?_)
+  · exact hother i (hmem i hi) (fun e => hnm (e ▸ hi))
+  · have := hmem i hi
+    rw [elen, Nat.mod_eq_of_lt (by omega), Nat.mod_eq_of_lt hcount]
+    omega
+
 end ElfioVerif.C05
